@@ -408,6 +408,29 @@ m("c17_typetest_float_via_accessor", "C17", r"C17\.TYPETEST:is_float:by-kind-onl
     val.as_f64().is_some() && !val.is_bool()""")
 m("c17_deleg_last_by_index", "C17", r"C17\.DELEG:filters::last", "last indexes len - 1 by hand",
   "tera/src/filters.rs", "    Ok(val.last().cloned().unwrap_or(Value::none()))", "    Ok(val.get(val.len().wrapping_sub(1)).cloned().unwrap_or(Value::none()))")
+# ---------------------------------------------------------------- round 9
+m("c02_concat_same_string_passthrough", "C02", r"C02\.CONCAT:vm:always-a-built-string", "`a ~ b` hands `a` back when b is none",
+  "tera/src/vm/interpreter.rs", "                        _ => Value::from(format!(\"{a}{b}\")),", "                        (_, ValueInner::None) => a,\n                        _ => Value::from(format!(\"{a}{b}\")),")
+m("c03_load_name_context_first", "C03", r"C03\.SCOPE:load_name:always-the-scope-chain", "load_name looks in the render context before the scope chain",
+  "tera/src/vm/state.rs", "            self.stack.push(self.get_value(name), span_idx..=span_idx);", "            let v = self.context.data.get(name).cloned().unwrap_or_else(|| self.get_value(name));\n            self.stack.push(v, span_idx..=span_idx);")
+m("c12_report_target_own_when_parentless", "C12", r"C12\.SRC:report_target:own-template-only-for-own-chunk", "report_target uses its own template whenever it has no parents",
+  "tera/src/vm/interpreter.rs", "        if self.template.name != chunk.name {", "        if self.template.name != chunk.name && !self.template.parents.is_empty() {")
+m("c15_get_attr_stops_at_first_key", "C15", r"C15\.ATTR:get_attr:scan-skips-non-matching-keys", "get_attr's scan answers from the first entry only",
+  "tera/src/value/mod.rs", """                m.iter().find_map(|(k, v)| match k.as_str() {
+                    Some(s) if s == attr => Some(v),
+                    _ => None,
+                })""", """                for (k, v) in m.iter() {
+                    match k.as_str() {
+                        Some(s) if s == attr => return Some(v),
+                        Some(_) => continue,
+                        None => return None,
+                    }
+                }
+                None""")
+m("c17_round_unscaled_for_small_precision", "C17", r"C17\.PRE:round:unscaled-only-for-precision-0", "round ignores negative precisions",
+  "tera/src/filters.rs", "    let multiplier = if precision == 0 {", "    let multiplier = if precision <= 0 {")
+m("c18_render_to_block_write_error_forgiven", "C18", r"C18\.IOERR:.*render_to", "a failed write of the captured block is forgiven",
+  "tera/src/vm/interpreter.rs", "            output.write_all(&state.block_buffer)?;", "            if output.write_all(&state.block_buffer).is_err() {\n                return Ok(());\n            }")
 # ---------------------------------------------------------------- C05
 m("c05_iso_global", "C05", r"C05\.ISO:writer:global_context", "render_component gives the component the global context",
   "tera/src/vm/interpreter.rs", """        let mut state = State::new_with_chunk(&context, chunk);
